@@ -38,13 +38,13 @@ fn default_doc_for(call: &Value, with_uc: bool) -> Value {
         .iter()
         .map(|a| {
             if with_uc {
-                json!({"id": a["id"], "status": "ok", "cohort": {}, "uc": {"status": "noupdate", "ver": "None"}})
+                json!({"id": a["id"], "status": "ok", "cohort": {}, "uc": [{"status": "noupdate", "ver": "None"}]})
             } else {
-                json!({"id": a["id"], "status": "ok", "cohort": {}, "uc": "None"})
+                json!({"id": a["id"], "status": "ok", "cohort": {}, "uc": []})
             }
         })
         .collect();
-    json!({"apps": apps, "daystart": "None"})
+    json!({"apps": apps, "daystart": []})
 }
 
 impl Env for ScriptEnv {
@@ -56,7 +56,7 @@ impl Env for ScriptEnv {
             return v.clone();
         }
         match kind {
-            "pol.next" => json!({"kind": "both", "dt": 3600, "minwait": "None"}),
+            "pol.next" => json!({"kind": "both", "dt": 3600, "minwait": []}),
             "pol.check" => json!({"d": "ok", "src": "same", "proxy": true, "dis": false, "same": false}),
             "pol.start" => json!("ok"),
             "pol.rbneeded" => json!(true),
@@ -65,8 +65,8 @@ impl Env for ScriptEnv {
                                 "body": {"doc": default_doc_for(call, true)}}),
             "http.ev" | "http.ping" => json!({"cls": "resp", "status": 200, "xra": [], "auth": "genuine",
                                 "body": {"doc": default_doc_for(call, false)}}),
-            "inst.plan" => json!({"ok": "plan1"}),
-            "inst.install" => json!({"results": "auto", "progress": [], "pmode": "seq"}),
+            "inst.plan" => json!({"ok": ["plan1"]}),
+            "inst.install" => json!({"results": [], "progress": [], "pmode": "seq"}),
             "inst.reboot" => json!("ok"),
             _ => json!("ok"),
         }
@@ -128,6 +128,22 @@ pub fn make_config(url: &str, os_version: &str, cup: Option<(u64, Vec<u64>)>) ->
 }
 
 type EvStream = LocalBoxStream<'static, StateMachineEvent>;
+
+/// Normalised description of one run (what the embedder configured), in a TLC-friendly fixed shape.
+pub fn run_cfg_j(cfg: &Value, run: &Value) -> Value {
+    let get = |k: &str| run.get(k).or_else(|| cfg.get(k)).cloned().unwrap_or(Value::Null);
+    let apps = apps_from(&get("apps"));
+    let sys = get("sys")
+        .as_str()
+        .map(|s| s.to_string())
+        .unwrap_or_else(|| apps.first().map(|a| a.id.clone()).unwrap_or_default());
+    json!({"mode": if get("mode").as_str() == Some("oneshot") { "oneshot" } else { "start" },
+           "cup": get("cup").is_object(),
+           "kid": get("cup").get("latest").and_then(|x| x.as_u64()).unwrap_or(0),
+           "apps": apps_j(&apps), "sys": sys,
+           "os": get("os_version").as_str().unwrap_or("1.0"),
+           "url": get("url").as_str().unwrap_or("http://omaha.example/svc/v1")})
+}
 
 fn build(w: &W, cfg: &Value, run: &Value) -> (Option<ControlHandle>, EvStream) {
     let get = |k: &str| run.get(k).or_else(|| cfg.get(k)).cloned().unwrap_or(Value::Null);
@@ -260,7 +276,7 @@ fn event_j(g: &World, e: &StateMachineEvent) -> Value {
             json!({"e": "progress", "p": (p.progress * 1000.0).round() as i64})
         }
         StateMachineEvent::OmahaServerResponse(r) => json!({"e": "resp",
-            "days": r.daystart.as_ref().and_then(|d| d.elapsed_days).map(|d| int_json(d as i128)).unwrap_or(json!("None")),
+            "days": opt_json(r.daystart.as_ref().and_then(|d| d.elapsed_days).map(|d| int_json(d as i128))),
             "apps": r.apps.iter().map(|a| json!({"id": a.id, "status": status_j(&a.status),
                 "cohort": cohort_j(&a.cohort),
                 "uc": a.update_check.as_ref().map(|u| status_j(&u.status)).unwrap_or(json!("None")),
@@ -456,15 +472,7 @@ impl Driver {
             "restart" | "crash" => {
                 self.crash(at);
                 let run = st.get("run").cloned().unwrap_or(json!({}));
-                let cfgv = {
-                    let mut m = Map::new();
-                    for k in ["mode", "os_version", "apps", "sys", "url", "cup"] {
-                        if let Some(v) = run.get(k) {
-                            m.insert(k.to_string(), v.clone());
-                        }
-                    }
-                    Value::Object(m)
-                };
+                let cfgv = run_cfg_j(&self.cfg, &run);
                 self.start_run(&run);
                 let snap = snap_j(&lk(&self.w).store.committed);
                 self.emit(json!({"k": "restart", "run": cfgv, "store": snap}));
@@ -667,11 +675,8 @@ pub fn run_scenario(sc: &Value) -> Vec<String> {
             g.tick(t0, t0);
         }
         let snap = snap_j(&g.store.committed);
-        let mut c = cfg.clone();
-        if let Some(o) = c.as_object_mut() {
-            o.remove("storage");
-        }
-        g.emit(json!({"k": "cfg", "id": sc.get("id").cloned().unwrap_or(json!("?")), "cfg": c, "store": snap}));
+        let c = run_cfg_j(&cfg, &json!({}));
+        g.emit(json!({"k": "cfg", "id": sc.get("id").cloned().unwrap_or(json!("?")), "run": c, "store": snap}));
     }
     let root = Arc::new(RootWake {
         count: std::sync::atomic::AtomicUsize::new(0),
